@@ -17,8 +17,10 @@ import (
 	"fmt"
 	"os"
 	"os/exec"
+	"path/filepath"
 	"sort"
 	"sync"
+	"sync/atomic"
 	"syscall"
 	"time"
 
@@ -27,6 +29,8 @@ import (
 	"github.com/kubewharf/kubebrain/pkg/backend"
 	"github.com/kubewharf/kubebrain/pkg/backend/coder"
 	"github.com/kubewharf/kubebrain/pkg/storage"
+	ibadger "github.com/kubewharf/kubebrain/pkg/storage/badger"
+	imetrics "github.com/kubewharf/kubebrain/pkg/storage/metrics"
 	itikv "github.com/kubewharf/kubebrain/pkg/storage/tikv"
 	"github.com/tikv/client-go/v2/testutils"
 	"github.com/tikv/client-go/v2/tikv"
@@ -37,7 +41,7 @@ import (
 const initRev = 1000
 
 type Req struct {
-	Kind  string // create | update | delete | get | list | compact | count | stream
+	Kind  string // create | update | delete | get | list | compact | count | stream | restart (driver step, invisible to clients)
 	Key   []byte
 	Val   []byte
 	End   []byte
@@ -121,6 +125,54 @@ func newTiKVClients(n int) (storage.KvStorage, func(), error) {
 	}
 	kv := itikv.NewKvStoreWithStorage(stores)
 	return kv, func() { _ = kv.Close() }, nil
+}
+
+var badgerSeq int64
+
+// openBadger opens Badger (optionally behind the metrics wrapper) on its own directory and also returns `reopen`:
+// close the database and open the same directory again — what a restart of the node does to the engine.
+func openBadger(scratch string, wrapped bool) (storage.KvStorage, func(), func() (storage.KvStorage, error), error) {
+	dir := filepath.Join(scratch, fmt.Sprintf("badger-c12-%d-%d", os.Getpid(), atomic.AddInt64(&badgerSeq, 1)))
+	if err := os.MkdirAll(dir, 0o755); err != nil {
+		return nil, nil, nil, err
+	}
+	var inner storage.KvStorage
+	open := func() (storage.KvStorage, error) {
+		kv, err := ibadger.NewKvStorage(ibadger.Config{Dir: dir})
+		if err != nil {
+			return nil, err
+		}
+		inner = kv
+		if wrapped {
+			return imetrics.NewKvStorage(kv, &lib.NopMetrics{}), nil
+		}
+		return kv, nil
+	}
+	kv, err := open()
+	if err != nil {
+		return nil, nil, nil, err
+	}
+	closer := func() { _ = inner.Close(); _ = os.RemoveAll(dir) }
+	reopen := func() (storage.KvStorage, error) {
+		if err := inner.Close(); err != nil {
+			return nil, err
+		}
+		return open()
+	}
+	return kv, closer, reopen, nil
+}
+
+// openEngineR is openEngine plus the engine's restart (nil for engines that do not persist: a restart of the node
+// keeps their content, as the mock cluster / the in-memory map outlive the backend)
+func openEngineR(eng, scratch string) (storage.KvStorage, func(), func() (storage.KvStorage, error), error) {
+	switch eng {
+	case lib.EngBadger:
+		return openBadger(scratch, false)
+	case lib.EngWrapBadger:
+		return openBadger(scratch, true)
+	}
+	kv, cl, err := openEngine(eng, scratch)
+	return kv, cl, nil, err
 }
 
 func openEngine(eng, scratch string) (storage.KvStorage, func(), error) {
@@ -262,7 +314,7 @@ func isWrite(k string) bool { return k == "create" || k == "update" || k == "del
 
 func runHistory(h History, eng, scratch string) Run {
 	run := Run{Engine: eng, Stalled: -1}
-	kv, closer, err := openEngine(eng, scratch)
+	kv, closer, reopen, err := openEngineR(eng, scratch)
 	if err != nil {
 		run.Fail = "open: " + err.Error()
 		return run
@@ -275,33 +327,65 @@ func runHistory(h History, eng, scratch string) Run {
 			closer()
 		}
 	}()
-	b := backend.NewBackend(kv, backend.Config{Prefix: "/registry", Identity: "verif", EnableEtcdCompatibility: true}, &lib.NopMetrics{})
-	b.SetCurrentRevision(initRev)
-	wctx, cancel := context.WithCancel(context.Background())
-	defer cancel()
-	ch, err := b.Watch(wctx, "", 0)
+	var mu sync.Mutex
+	var events []Event
+	var cancelWatch context.CancelFunc
+	// start brings a backend up over kv at the given revision, with one watch from revision 0 feeding `events`
+	start := func(kv storage.KvStorage, rev uint64) (backend.Backend, error) {
+		b := backend.NewBackend(kv, backend.Config{Prefix: "/registry", Identity: "verif", EnableEtcdCompatibility: true}, &lib.NopMetrics{})
+		b.SetCurrentRevision(rev)
+		wctx, cancel := context.WithCancel(context.Background())
+		ch, err := b.Watch(wctx, "", 0)
+		if err != nil {
+			cancel()
+			return nil, err
+		}
+		cancelWatch = cancel
+		go func() {
+			for batch := range ch {
+				mu.Lock()
+				for _, e := range batch {
+					ev := Event{Type: int(e.Type), Rev: e.Revision}
+					if e.Kv != nil {
+						ev.Key, ev.Val, ev.KvRev = e.Kv.Key, e.Kv.Value, e.Kv.Revision
+					}
+					events = append(events, ev)
+				}
+				mu.Unlock()
+			}
+		}()
+		return b, nil
+	}
+	b, err := start(kv, initRev)
 	if err != nil {
 		run.Fail = "watch: " + err.Error()
 		return run
 	}
-	var mu sync.Mutex
-	var events []Event
-	go func() {
-		for batch := range ch {
-			mu.Lock()
-			for _, e := range batch {
-				ev := Event{Type: int(e.Type), Rev: e.Revision}
-				if e.Kv != nil {
-					ev.Key, ev.Val, ev.KvRev = e.Kv.Key, e.Kv.Value, e.Kv.Revision
-				}
-				events = append(events, ev)
-			}
-			mu.Unlock()
-		}
-	}()
+	defer func() { cancelWatch() }()
 	dealt := uint64(initRev)
 	nvalid := 0
 	for i, r := range h.Reqs {
+		if r.Kind == "restart" {
+			// the node restarts: the engine is closed and opened again where it persists, and a new backend takes over
+			// at the revision the old one had reached.  Clients see nothing of it.
+			run.Resps = append(run.Resps, Resp{Kind: "restart"})
+			if reopen == nil {
+				continue
+			}
+			lib.WaitUntil(2*time.Second, func() bool { mu.Lock(); defer mu.Unlock(); return len(events) >= nvalid })
+			cancelWatch()
+			nkv, err := reopen()
+			if err != nil {
+				run.Fail = "reopen: " + err.Error()
+				break
+			}
+			kv = nkv
+			if b, err = start(kv, dealt); err != nil {
+				run.Fail = "watch after restart: " + err.Error()
+				break
+			}
+			continue
+		}
 		res := callWatched(b, r)
 		run.Resps = append(run.Resps, res)
 		if res.Kind == "hang" {
@@ -563,6 +647,9 @@ func genHistory(r *lib.Rand, withEmpty bool) History {
 		}
 		g.apply(q)
 		reqs = append(reqs, q)
+		if r.Chance(1, 40) {
+			reqs = append(reqs, Req{Kind: "restart"})
+		}
 	}
 	return History{Name: "random", Reqs: reqs}
 }
@@ -575,15 +662,15 @@ func versionsHistory() History {
 	a, b, ab := B("/registry/a"), B("/registry/b"), B("/registry/ab")
 	lo, hi := B("/registry/"), B("/registry0")
 	reqs := []Req{
-		{Kind: "create", Key: a, Val: B("v1")},                      // 1001
-		{Kind: "update", Key: a, Val: B("v2"), Rev: initRev + 1},    // 1002
-		{Kind: "update", Key: a, Val: B("v3"), Rev: initRev + 2},    // 1003
-		{Kind: "update", Key: a, Val: B("v4"), Rev: initRev + 3},    // 1004
-		{Kind: "create", Key: b, Val: B("w1")},                      // 1005
-		{Kind: "update", Key: a, Val: B("v5"), Rev: initRev + 4},    // 1006
-		{Kind: "create", Key: ab, Val: B("x1")},                     // 1007
-		{Kind: "update", Key: b, Val: B("w2"), Rev: initRev + 5},    // 1008
-		{Kind: "delete", Key: ab, Rev: initRev + 7},                 // 1009
+		{Kind: "create", Key: a, Val: B("v1")},                   // 1001
+		{Kind: "update", Key: a, Val: B("v2"), Rev: initRev + 1}, // 1002
+		{Kind: "update", Key: a, Val: B("v3"), Rev: initRev + 2}, // 1003
+		{Kind: "update", Key: a, Val: B("v4"), Rev: initRev + 3}, // 1004
+		{Kind: "create", Key: b, Val: B("w1")},                   // 1005
+		{Kind: "update", Key: a, Val: B("v5"), Rev: initRev + 4}, // 1006
+		{Kind: "create", Key: ab, Val: B("x1")},                  // 1007
+		{Kind: "update", Key: b, Val: B("w2"), Rev: initRev + 5}, // 1008
+		{Kind: "delete", Key: ab, Rev: initRev + 7},              // 1009
 	}
 	for r := uint64(initRev); r <= initRev+10; r++ {
 		reqs = append(reqs, Req{Kind: "list", Key: lo, End: hi, Rev: r},
@@ -700,6 +787,24 @@ func corpus() []History {
 			{Kind: "compact", Rev: initRev + 1}, {Kind: "count", Key: lo, End: hi}, {Kind: "stream", Key: lo, End: hi}}},
 		manyRegionsHistory(),
 		readYourWritesHistory(),
+		{Name: "fixed:compact-after-delete-of-smaller-key", Reqs: []Req{ // superseded versions behind a deleted key must go on every engine
+			{Kind: "create", Key: a, Val: B("a1")}, {Kind: "create", Key: b, Val: B("b1")}, {Kind: "create", Key: B("/registry/c"), Val: B("c1")},
+			{Kind: "update", Key: b, Val: B("b2"), Rev: initRev + 2}, {Kind: "update", Key: B("/registry/c"), Val: B("c2"), Rev: initRev + 3},
+			{Kind: "delete", Key: a}, {Kind: "compact"},
+			{Kind: "get", Key: b, Rev: initRev + 2}, {Kind: "get", Key: B("/registry/c"), Rev: initRev + 4}, {Kind: "get", Key: a, Rev: initRev + 1},
+			{Kind: "get", Key: b, Rev: initRev + 3}, {Kind: "get", Key: b}, {Kind: "get", Key: B("/registry/c")}, {Kind: "get", Key: a},
+			{Kind: "list", Key: lo, End: hi}, {Kind: "count", Key: lo, End: hi}}},
+		{Name: "fixed:restart-then-rewrite-last-key", Reqs: []Req{ // a persistent engine is reopened; the greatest key is then rewritten
+			{Kind: "create", Key: a, Val: B("a1")}, {Kind: "create", Key: b, Val: B("b1")}, {Kind: "create", Key: B("/registry/m"), Val: B("m1")},
+			{Kind: "restart"},
+			{Kind: "update", Key: B("/registry/m"), Val: B("m2"), Rev: initRev + 3},
+			{Kind: "list", Key: lo, End: hi}, {Kind: "count", Key: lo, End: hi}, {Kind: "stream", Key: lo, End: hi},
+			{Kind: "create", Key: B("/registry/z"), Val: B("z1")}, {Kind: "delete", Key: B("/registry/m")},
+			{Kind: "list", Key: lo, End: hi}, {Kind: "count", Key: lo, End: hi}, {Kind: "stream", Key: lo, End: hi}, {Kind: "list", Key: lo, End: hi, Limit: 2},
+			{Kind: "restart"},
+			{Kind: "update", Key: B("/registry/z"), Val: B("z2"), Rev: initRev + 5}, {Kind: "list", Key: lo, End: hi}, {Kind: "count", Key: lo, End: hi},
+			{Kind: "compact"}, {Kind: "get", Key: B("/registry/m")}, {Kind: "get", Key: B("/registry/m"), Rev: initRev + 3},
+			{Kind: "get", Key: B("/registry/z"), Rev: initRev + 5}, {Kind: "list", Key: lo, End: hi}, {Kind: "count", Key: lo, End: hi}}},
 		{Name: "fixed:empty-value", Reqs: []Req{
 			{Kind: "create", Key: a, Val: B("")}, {Kind: "get", Key: a}, {Kind: "list", Key: lo, End: hi},
 			{Kind: "update", Key: a, Val: B("v2"), Rev: initRev + 1}, {Kind: "get", Key: a}}},
@@ -778,9 +883,11 @@ var coqEng = map[string]string{lib.EngMem: "EMem", lib.EngBadger: "EBadger", lib
 	lib.EngWrapMem: "EWrapMem", lib.EngWrapBadger: "EWrapBadger", engTiKVSplitKey: "ETiKV", engTiKVSplitVer: "ETiKV", engTiKVMany: "ETiKV", engTiKV2: "ETiKV", engTiKV4: "ETiKV"}
 
 func coqRun(r Run) string {
-	rs := make([]string, len(r.Resps))
-	for i, x := range r.Resps {
-		rs[i] = coqResp(x)
+	var rs []string
+	for _, x := range r.Resps {
+		if x.Kind != "restart" {
+			rs = append(rs, coqResp(x))
+		}
 	}
 	es := make([]string, len(r.Events))
 	for i, e := range r.Events {
@@ -805,6 +912,8 @@ func jsonReq(r Req) string {
 		return fmt.Sprintf("get(%q,rev=%d)", r.Key, r.Rev)
 	case "list":
 		return fmt.Sprintf("list(%q,%q,rev=%d,limit=%d)", r.Key, r.End, r.Rev, r.Limit)
+	case "restart":
+		return "restart"
 	case "count":
 		return fmt.Sprintf("count(%q,%q)", r.Key, r.End)
 	case "stream":
@@ -819,6 +928,8 @@ func jsonResp(r Resp) string {
 		kv = fmt.Sprintf("%q@%d", r.KvVal, r.KvRev)
 	}
 	switch r.Kind {
+	case "restart":
+		return "-"
 	case "err", "panic", "hang":
 		return r.Kind + ":" + r.ErrStr
 	case "count":
@@ -935,10 +1046,12 @@ func main() {
 		if len(res.Runs) == 0 {
 			continue
 		}
-		qs := make([]string, len(h.Reqs))
+		var qs []string
 		jq := make([]string, len(h.Reqs))
 		for j, r := range h.Reqs {
-			qs[j] = coqReq(r)
+			if r.Kind != "restart" {
+				qs = append(qs, coqReq(r))
+			}
 			jq[j] = jsonReq(r)
 			reqKinds[r.Kind]++
 		}
